@@ -484,7 +484,9 @@ class Executor:
                 return True
             except Exception:  # noqa
                 continue
-            if traj.broken or off + nfull >= len(traj.digs) or traj.digs[off + nfull] != x.dig_in:
+            if traj.broken:
+                return True  # the undisturbed trajectory is singular itself
+            if off + nfull >= len(traj.digs) or traj.digs[off + nfull] != x.dig_in:
                 continue
             try:
                 if x.dt_is_array:
@@ -586,6 +588,8 @@ class Executor:
             ptraj.broken = True
         except Exception as e:  # model must not fail on admissible input
             raise HarnessError("reference model failed: %r" % (e,))
+        if ptraj.broken:
+            r.model_failed = True  # (also when an earlier operation already found it singular)
         times = ptraj.times()[poff:poff + nsteps + 3]
         hs = [float(np.min(x)) for x in ptraj.ticks[poff:poff + nsteps + 2]]
         H = hs[0] if hs else 1.0
